@@ -117,6 +117,13 @@ def scalar(t, r, ctx=None):
         lo = [(r.uniform(-5, 0) if flt else rint(r, -20, 0)) for _ in range(n)]
         hi = [(l + r.uniform(0.5, 5) if flt else l + rint(r, 1, 20)) for l in lo]
         return getattr(I, t)(vt(*lo), vt(*hi))
+    m = re.match(r"^FrustumTest(f|d)$", t)
+    if m:
+        e = m.group(1)
+        near = r.uniform(0.5, 2.0)
+        fr = getattr(I, "Frustum" + e)(near, near + r.uniform(5, 40), -r.uniform(0.3, 2), r.uniform(0.3, 2), r.uniform(0.3, 2), -r.uniform(0.3, 2), r.one_in(3))
+        cam = scalar("M44" + e, r, "affine")
+        return getattr(I, t)(fr, cam)
     if t == "Rand32":
         return I.Rand32(r.range(1, 1000))
     if t == "Order":
@@ -308,6 +315,8 @@ def copy_elem(e):
         pass
     if type(e).__name__.startswith("Box"):
         return type(e)(copy_elem(e.min()), copy_elem(e.max()))
+    if type(e).__name__.startswith(("FrustumTest", "Rand")):
+        return e                  # no copy constructor; not modified by the calls made here
     raise TypeError("cannot copy " + type(e).__name__)
 
 
